@@ -183,8 +183,9 @@ class RichData:
         y = np.ascontiguousarray(y)
         x = np.squeeze(x)
         y = np.squeeze(y)
-        if self.interpf_2d is None:
-            self.interpf_2d = interpolate.RegularGridInterpolator((y, x), self.data)
+        # built anew on every call: the data and the coordinates may have been
+        # modified, cropped, padded or rescaled since the last one was made
+        self.interpf_2d = interpolate.RegularGridInterpolator((y, x), self.data)
 
         return self.interpf_2d
 
@@ -199,17 +200,17 @@ class RichData:
             y interpolator
 
         """
+        # built anew on every call, see _make_interp_function_2d
         slc = self.slices()
-        if self.interpf_x is None or self.interpf_y is None:
-            ux, x = slc.x
-            uy, y = slc.y
-            ux = np.ascontiguousarray(ux)
-            uy = np.ascontiguousarray(uy)
-            x = np.ascontiguousarray(x)
-            y = np.ascontiguousarray(y)
+        ux, x = slc.x
+        uy, y = slc.y
+        ux = np.ascontiguousarray(ux)
+        uy = np.ascontiguousarray(uy)
+        x = np.ascontiguousarray(x)
+        y = np.ascontiguousarray(y)
 
-            self.interpf_x = interpolate.interp1d(ux, x)
-            self.interpf_y = interpolate.interp1d(uy, y)
+        self.interpf_x = interpolate.interp1d(ux, x)
+        self.interpf_y = interpolate.interp1d(uy, y)
 
         return self.interpf_x, self.interpf_y
 
